@@ -710,28 +710,67 @@ LL_TOL = 1e-6
 P_RTOL = 1e-3
 
 
-def probit_ml_slope(rows):
-    """Slope b (per decade of load) of the probit model P(fracture) = Phi(a + b lg L) fitted by maximum likelihood to the
-    tests of the infinite zone - the harness' own fit (BFGS with analytic gradient on a concave function).  The ML scatter
-    is TS = 10**(2.5631 / b); b <= 0 means that the likelihood has no maximum in (SD, TS) at all."""
-    ic = infinite_cov(rows)
-    if ic is None:
-        return None
-    if ic <= 1e-9:
-        return 0.0
-    from scipy import optimize
+def probit_fit(rows):
+    """Maximum-likelihood fit of P(fracture) = Phi(a + b lg L) to the tests of the infinite zone - the harness' own fit
+    (BFGS with analytic gradient on a concave function).  Returns {"b": slope per decade of load, "ll": sup of the
+    log-likelihood, "ll_null": log-likelihood of the best constant probability}.  b <= 0 (failure fraction not increasing
+    with load) means that the likelihood has no maximum in (SD, TS): the sup ll_null is approached for TS -> infinity.
+    The ML scatter is TS = 10**(2.5631 / b)."""
     s = structure(rows)
+    if not s["infinite"]:
+        return None
+    from scipy import optimize
     x = np.array([math.log10(rows[i][0]) for i in s["infinite"]])
     sg = np.array([1.0 if rows[i][2] else -1.0 for i in s["infinite"]])
-    xc = (x - x.mean()) / max(x.std(), 1e-12)
+    nf, n = int((sg > 0).sum()), len(sg)
+    ll_null = sum(m * math.log(m / n) for m in (nf, n - nf) if m > 0)
+    ic = infinite_cov(rows)
+    if ic <= 1e-9 or x.std() == 0:
+        return {"b": 0.0, "ll": ll_null, "ll_null": ll_null, "n": n}
+    sd = x.std()
+    xc = (x - x.mean()) / sd
 
     def nll(p):
         z = sg * (p[0] + p[1] * xc)
         lc = sps.norm.logcdf(z)
         g = -sg * np.exp(sps.norm.logpdf(z) - lc)
         return -lc.sum(), np.array([g.sum(), (g * xc).sum()])
-    r = optimize.minimize(nll, [0.0, 0.5], jac=True, method="BFGS", options={"gtol": 1e-10, "maxiter": 500})
-    return float(r.x[1] / max(x.std(), 1e-12))
+    r = optimize.minimize(nll, [float(sps.norm.ppf(min(max(nf / n, 0.05), 0.95))), 0.5], jac=True, method="BFGS",
+                          options={"gtol": 1e-10, "maxiter": 1000})
+    return {"b": float(r.x[1] / sd), "ll": -float(r.fun), "ll_null": ll_null, "n": n}
+
+
+def ref_sup_infinite(rows, ts_fixed=None):
+    """sup over SD (and TS unless fixed) of the infinite-zone log-likelihood."""
+    s = structure(rows)
+    if not s["infinite"] or not sd_identified(rows):
+        return 0.0                                   # run-outs only: every SD far above them gives probability 1
+    if ts_fixed is None:
+        return probit_fit(rows)["ll"]
+    from scipy import optimize
+    sS = abs(math.log10(ts_fixed) / _Z90)
+    x = np.array([math.log10(rows[i][0]) for i in s["infinite"]])
+    sg = np.array([1.0 if rows[i][2] else -1.0 for i in s["infinite"]])
+    f = lambda m: -float(sps.norm.logcdf(sg * (x - m) / sS).sum())       # concave in m = lg SD
+    r = optimize.minimize_scalar(f, bounds=(x.min() - 20 * sS - 1, x.max() + 20 * sS + 1), method="bounded", options={"xatol": 1e-13})
+    return -float(r.fun)
+
+
+def ref_sup_finite(rows):
+    """sup over (k_1 >= 0, lg ND + k_1 lg SD, TN) of the finite-life log-likelihood: least squares of lg N on lg L over all
+    fractures, ML variance RSS/n.  inf if the fractures are collinear."""
+    pts = [(math.log10(r[0]), math.log10(r[1])) for r in rows if r[2]]
+    x, y = np.array([q[0] for q in pts]), np.array([q[1] for q in pts])
+    n = len(pts)
+    xm, ym = x.mean(), y.mean()
+    sxx = ((x - xm) ** 2).sum()
+    beta = ((x - xm) * (y - ym)).sum() / sxx if sxx > 0 else 0.0
+    if beta > 0:
+        beta = 0.0                                   # the library folds k_1 to |k_1|: slopes of the wrong sign are not available
+    rss = float(((y - ym - beta * (x - xm)) ** 2).sum())
+    if rss <= 1e-20 * n:
+        return math.inf
+    return -0.5 * n * (math.log(2 * math.pi * rss / n) + 1.0)
 
 
 TS_USABLE = 1e4
@@ -744,8 +783,8 @@ def ts_undetermined(rows, name):
     ts_free = name == "MaxLikeInf" or (s["n_runouts"] > 0 and len(s["mixed"]) >= 2)
     if not ts_free:
         return False
-    b = probit_ml_slope(rows)
-    return b is not None and b <= _Z90 / math.log10(TS_USABLE)
+    pf = probit_fit(rows)
+    return pf is not None and pf["b"] <= _Z90 / math.log10(TS_USABLE)
 
 
 def sd_identified(rows):
